@@ -161,6 +161,9 @@ jobs (≈ 4 min), thorough every row × every factor column × every chunk.
 Repaired on the way: binary rounding of marks (62dcd62), factor below the first
 band (4572547), unknown pair with an age (c0d0b9e), events without a masters
 factor below 35 (8153c65), table lookup before age factor / `_FUZZ`. Seeds 4/4.
+Session 3: *history row jobs* - the zero-point chunk of the 800 m rows and two other rows again after one earlier
+call for the same event with the other options (ESAA switched, a masters age): the bit-precise exactness clause must still
+hold (a coefficient row edited in place was scored 769 instead of 861). Seeds 6/6.
 ''',
 'C02': '''**As built.** `harness/hj.py`, `hj_run.py`, `C02.py`. Pre-state families: the
 regular phase (states scheduled / started / won) for every shape
@@ -179,6 +182,8 @@ cannot be rebuilt is exit 2, never VIOLATION; clauses are additionally checked
 concretely on witnesses of paths that are unreachable as modelled. Repaired:
 refused first bar height started the competition (6d88718), jump-off clearance
 lowered the best (c5d1809). Seeds 4/4. Quick ≈ 45 s.
+Session 3: the engine repair of §2.10 raised the quick tier from 5 679 to 9 430 explored paths (no new violation);
+pre-states follow the code's best-column policy (below, C03). Seeds 6/6.
 ''',
 'C03': '''**As built.** Same engine and bounds as C02 with the placing clauses: best ==
 greatest height cleared on the card in every post-state; places == countback
@@ -190,6 +195,12 @@ best moves `highest_cleared_index`) was first missed: the place error needs a
 **second jump-off height** and a third athlete; the families jo0x/jo1x/jo0o/jo1o
 and a three-athlete shape in the quick tier were added for it (before that the
 check ended exit 2: states no longer reachable as modelled).
+Session 3: `highest_cleared_index` is an internal field, so among several columns of the best height the pre-states now
+follow what the code under test does (`hj.probe_hci_policy`: one concrete jump-off at a bar equal to the best, read back the
+index) and the clauses judge only best height and places from the cards. With the seeded `>=` the pre-states are reachable
+again (no more exit 2) and the solver finds the jump-off loser placed behind a non-participant; that needs three athletes on
+three regular heights, so the quick tier carries that one shape for the second jump-off height (calls of one bib - the three
+cards are symmetric - split by ranking order into 12 parallel jobs, ~60 s). Seeds 6/6 (the two `>=` variants included).
 ''',
 'C04': '''**As built.** `harness/C04.py`, level `proof` (every obligation `unsat`, no
 length bound). 0 false alarms after the translation was validated against the
@@ -209,6 +220,9 @@ when z3 says unknown. Known finding: Bulgarian U16 F 600 table typo (order
 breaks at one cell). Repaired: hungarian clamp (2030e14), sportshall FUZZ /
 units / SHJ (c316963, 76fb8cc, 3bad13f), bulgarian `+1e-6` (bc1e465). Seeds 5/5.
 ≈ 25 s.
+Session 3: *history clause* for Tyrving races up to 400 m and every combined-events row: one mark is scored, another call
+for the same row happens (a hand-timed text, resp. the masters-age / ESAA options, concrete mark), the adjacent mark is
+scored - the order clause must hold, both orders. Seeds 7/7.
 ''',
 'C06': '''**As built.** Part A as designed (all shapes, prec 0–5, LIA on digit cells).
 Part B does **not** use the IEEE model: the duration is a proxy pair
@@ -218,6 +232,8 @@ flag when N ≠ 8), closed by an LRA/LIA lemma per precision; the R-mode version
 was too slow. Part C: digit templates against an exact sexagesimal oracle, and
 arbitrary texts ≤ 4 cells (only ValueError may escape). Repaired: empty integer
 part (e4c2b99), fractions below 1e-4 (7a7bec9). Seeds 4/4. ≈ 10 s.
+Session 3: `parse_hms` history jobs (a text of the sibling shape - last field with / without a fraction, digits of its
+own - parsed first, then every clause, the result type included). Seeds 6/6.
 ''',
 'C07': '''**As built.** 1449 main templates + 393 variant + 243 near-miss templates
 generated from the live `PAT_EVENT_CODE` parse tree (quick); clauses: accepted
@@ -234,7 +250,8 @@ first and third outcome must agree (1 712 jobs in the thorough tier, three slots
 per template plus append / prepend in the quick tier, ≈ 20 s). Seeds 4/4 (one
 needed `SymStr.isupper/isalnum`, first flagged as ENCODING MISMATCH by the
 witness replay; the upper-cased memo key needed the history clause and the
-per-path store table). ≈ 2.5 min.
+per-path store table); session 3: slots are also *inserted* characters (a memo keyed on the whitespace-free spelling
+accepted `'1 500'` after `'1500'`). Seeds 6/6. ≈ 2.5 min.
 ''',
 'C08': '''**As built.** Clauses: *commute* (two calls for different athletes in either
 order reach the same observable state, every pair × 4 × 4 trial kinds),
@@ -245,6 +262,8 @@ must be unobservable; three-athlete shapes), *log* (append-only), *replay*
 concretely on witnesses, the matrix parser is not executed symbolically).
 Seeds 4/4; two were missed at first and led to the tie-order and replay
 clauses. Quick 2 × 2 (≈ 110 s), thorough 3 × 3.
+Session 3: the replay clause reads `trials` at every new height while the witness history runs and compares the final list
+with `from_actions().trials` (an incrementally cached `trials` differs). Seeds 6/6.
 ''',
 'C10': '''**As built.** 881 single templates and 216 pair jobs (quick; hurdles
 specifications sampled 600). Key tuples may hold floats (a seed made the mile
@@ -256,6 +275,8 @@ the library (mile count = the whole run of leading digits; relay leg = digits
 among the kept seeds) showed that the earlier oracles copied the library's
 assumptions. Repaired: `discipline_sort_key` on valid codes (c023c5d), relays /
 SDMR (507c62e), FIELD_SORT_ORDER. Seeds 3/3. ≈ 30–60 s.
+Session 3: history jobs (all relay templates and a seeded sample of the others: the clauses of one code after the same
+functions ran on another code of the same template). Seeds 5/5.
 ''',
 'C11': '''**As built.** As designed, with two practical changes: the range of `k` is cut
 into chunks of 16384 marks per cvc5 query (unchunked queries took up to 30
@@ -265,6 +286,9 @@ clauses (live == frozen reference, order, keys normalised) are exhaustive.
 Known finding: Bulgarian U16 F 600 typo. Repaired: Tyrving key (c856a5c) and
 the sportshall / bulgarian fixes listed under C05. Seeds 5/5. Quick samples
 Tyrving chunks (≈ 3.5 min); thorough runs all.
+Session 3: history jobs (central chunk of sprint rows after one hand-timed text for the same row); the decimal shim gained
+`//` and `%` (linear for numeral divisors; 256-bit division when the integers are bit-vectors, because aligning
+`Decimal(0.2)`'s 54 decimals overflows 64 bits). Seeds 7/7.
 ''',
 'C12': '''**As built.** `harness/C12.py`. Text templates (digits, `.`/`,`, `:`/`;`, leading
 `0:`/`00:`, blanks, one junk cell, empty) through the real function via the
@@ -284,13 +308,16 @@ form (11e9abc), and — found by the first end-to-end run of the thorough tier
 (`DD:DDD` templates) — the 400 m `63:40 means 63.40` reading, which added
 0.01 × a three-digit hundredths field to the seconds *after* the "above 99
 seconds" rule and returned `'101'` for `'92:900'` (155050f). Seeds 4/4 (one after
-correcting the oracle and a too-wide known-finding predicate). ≈ 1.5–2 min.
+correcting the oracle and a too-wide known-finding predicate); session 3 added history jobs for field events (the same
+event validated for another gender first): Seeds 6/6. ≈ 2.5 min.
 ''',
 'C13': '''**As built.** As designed. The `relativedelta(...).years` / `date` / ISO
 `parse` contracts are compared with the real dateutil at start-up (88k–1.5M
 date pairs, and a sweep of ISO texts incl. `dayfirst`). Seeds 4/4 (`dayfirst`
 first surfaced as ENCODING MISMATCH → the option was added to the contract).
 ≈ 75 s.
+Session 3: oracle-free history clause per category (same birth date asked for another day of the same month first; the
+group must equal the one obtained after the library state is put back). Seeds 6/6.
 ''',
 'C14': '''**As built.** R-mode only (no IEEE). `find_age`'s column scan is kept cheap by
 an interval shortcut in the engine (atoms `var op numeral` decided from the
@@ -303,7 +330,9 @@ column, missing only before the first tabulated age, every other cell a finite
 positive number) because the quick tier's three age windows and 30 % row sample do
 not reach a single mid-table cell; its first version demanded factors ≤ 1.5 and
 raised 24 false alarms on the 2023 throws rows, whose factors exceed 1 by the
-table's convention (corrected in session 3, §11). Quick ≈ 15 s, thorough ≈ 6 min.
+table's convention (corrected in session 3, §11). Session 3 also added an oracle-free history job for every row tabulated for
+both genders (factor, best and grade after the same grader object answered for the other gender == the answers after the
+library state is put back). Seeds 6/6. Quick ≈ 50 s, thorough ≈ 8 min.
 ''',
 'C15': '''**As built.** The distance is an integer rendered as digit cells (`'1234'`
 or `'12K'`), so `get_distance` itself runs symbolically; `distance / speed` is
@@ -314,14 +343,19 @@ and was reverted). Spellings: bare metres, whole kilometres `N K`, tenths of a k
 (from 1 km) and whole miles `N M`; two-decimal kilometres and decimal miles are
 outside. Seeds 4/4; *decimal-km-truncated* (`'10.5K'`) was missed until the
 `N.d K` spelling was added. Quick: 2023 table, age 47 (≈ 4 min).
+Session 3: history variants of every fourth bare-number segment (a concrete distance of the segment and a far-away
+tabulated event asked first - scratch attributes `_fx` / `_fx1` / `_pfac` and remembered positions must not leak). Seeds 6/6.
 ''',
 'C17': '''**As built.** As designed. Repaired: band comparison as strings (46c4a90),
 ValueError without a weight (add8c8b). Seeds 3/3 (one exposed a harness bug:
 a plain-library worker shared across `fork()`; fixed). ≈ 15 s.
+Session 3: a history-dependent answer (module-level list extended in place) is caught through the long-lived witness
+process (§2.10 (ii)): `answer-depends-on-earlier-calls`. Seeds 5/5.
 ''',
 'C19': '''**As built.** As designed; a second validator class was added to the symbolic
 pre-state after a seed merged cache keys of different validators. Repaired:
 ecda627. Seeds 3/3. ≈ 10 s.
+Seeds 5/5 after session 3.
 ''',
 }
 
@@ -377,7 +411,10 @@ JS table still keyed `'110H1cm9.14m'` after the Python repair (91077db); Python
 `race_points` discarded the result of `v.replace(',', '.')`, so `'9,55'` was
 refused by Python and scored by JS (25ce52e). Quick ≈ 80 s: 1932 paths, 1748
 obligations (565 syntactic), 3370 witness values agreed with node / python.
-
+Session 3: history jobs (sprint rows after one hand-timed call for the same row *in both languages*: a calculator object
+kept between calls made Python score 959 where JavaScript scores 1000). State kept by the JavaScript side between paths is not
+restored by `symrun/state.py` (the interpreter's module objects are outside its reach); a divergence would end as
+"re-execution diverged" (exit 2). Seeds 6/6.
 '''
 
 S210 = '''### 2.10 Re-execution, library state and call histories (added in session 3)
@@ -405,6 +442,14 @@ Three things the depth-first re-execution of §2.1 silently relied on are now en
   it. A cache keyed by (a function of) the argument is thereby modelled precisely instead of being
   concretised key by key. Iterating or popping such a dict is unsupported (exit 2).
 
+* **What else hides state.** `functools.lru_cache` / `cache` keep their table in C: inside athlib's namespaces `functools` is a shim
+  (`symrun/shims/functools_shim.py`) whose tables are python lists, emptied before every path, looked up with `==` on the argument
+  tuples (python's `typed=False` semantics: `(1, 10)` and `(1, 10.0)` are one key) and forking on symbolic arguments. Dict keys may
+  be symbolic strings, symbolic numbers and tuples of them; a lookup is ONE fork on the conjunction of the component equalities.
+  Counterexample and clause scripts run in a child forked per request from a process that has imported athlib and never calls it,
+  so every replay starts from the state of a fresh import (the earlier long-lived replay process made a sticky flag set by one
+  replay hide the next one); only witness *expressions* run in a long-lived process, on purpose (below).
+
 **Call histories.** Properties of the form "for every input, f(input) satisfies P" are implicitly about every
 state of the process in which f is called. Two mechanisms look at that. (i) *Symbolic sequences*: C07 runs
 `f(u); f(s); f(u)` for sibling spellings that share all cells but one and requires the first and the third
@@ -416,7 +461,16 @@ bisected to a shortest history that reproduces it (typically one call), each cla
 in a fresh process after that history, and one that fails is reported as VIOLATION with `replay = history +
 clause script`. If the fresh process also disagrees it is an encoding error (exit 2) as before. (ii) is a
 differential by-product of witness validation, not a solver verdict; it is what turned the seeded upper-cased
-memo key of `normalize_event_code` from "exit 2" into a replayed violation before (i) existed.
+memo key of `normalize_event_code` from "exit 2" into a replayed violation before (i) existed. If no clause script
+notices the changed answer (it is still well-formed), the two answers themselves are reported
+(`answer-depends-on-earlier-calls`; replay = the expression in a forked child, the history, the expression again).
+(iii) *Priming inside a path* (`hc.Runner.prime_body` / explicit calls in the body): an earlier call - with symbolic
+inputs of its own where that is affordable (C06, C07, C10, C12, C13), with concrete arguments and enumerated options where
+the solver cost is in the floats (C01, C05, C11, C14, C15, C18) - runs first with its clauses muted, then the ordinary
+clauses are asserted in the state it left. Where no oracle is at hand the reference answer is obtained in the same
+path: prime, `r1 = f(a)`, put the library state back (`hc.reset_library_state()`), `r0 = f(a)`, assert `r0 == r1`
+(C13, C14). Replays of such counterexamples run the priming call first, in a pristine child.
+
 
 '''
 
@@ -435,6 +489,10 @@ S5 = '''## 5. Bounds and what lies outside them (collected)
   passes / retirements / mixed results in a completed column, are outside.
 * Dates: 1900–2100, age ≤ 110.
 * Caches: 0..20 entries, sequences of 2 calls.
+* Call histories (every property but C04 and C19, whose subject they are): ONE earlier call, of the kind named in the
+  property's paragraph of §3 (sibling spelling, other gender, other options, hand-timed text, neighbouring date, sibling
+  shape), symbolic where affordable and concrete otherwise; C07 sequences of three. Longer histories, and histories mixing
+  different library functions, are outside - except as they occur by chance in the long-lived witness process (§2.10 (ii)).
 * Floats: IEEE double, round-to-nearest-even, no overflow/NaN inside the
   asserted ranges (C01, C11 bit-precise); elsewhere reals with monotone rounding
   (order/tolerance statements; candidates replayed) or exact reals under the
@@ -527,7 +585,8 @@ def s10():
            'baseline and need a specific input to show. Each was confirmed by me in the scratch worktree (suite baseline, the\n'
            'agent\'s demo exits 0 without and 1 with the change), kept as `seeded/<name>/{patch.diff, demo.py, meta.json}`, then\n'
            'applied to `/repo` (`git apply`), the check run, and `/repo` restored (`git checkout -- .`); no seed was ever\n'
-           'committed in `/repo`. `tools/try_seed.sh <patch> <id> <tier>` repeats this for one seed.\n\n'
+           'committed in `/repo`. `tools/try_seed.sh <patch> <id> <tier>` repeats this for one seed; from session 3 on the seeds are applied in\n'
+           'scratch worktrees instead and the checks pointed at them with `VERIF_REPO` (`tools/seed_regress.py`, which also re-runs every kept seed).\n\n'
            '%d seeds kept; %d reported as VIOLATION by the quick tier of their property\'s check (several only after the check was\n'
            'strengthened — noted in the last column, and in §11); %d not detected.\n\n' % (n, n - len(miss), len(miss)),
            '| property | seed | change | result |\n|---|---|---|---|\n']
@@ -596,6 +655,12 @@ never listed as findings), and misses found by the seeds:
   cause was the library remembering an earlier call; it is now separated from a
   true encoding error by a fresh-process evaluation and reported with its history
   (§2.10).
+* Session 3, blind seeds round 3 (34 changes, most of them asked to depend on state or on a combination): nine were not reported
+  at first - eight answers that depend on an earlier call (ESAA coefficients edited in place, a Tyrving calculator kept per event
+  with a sticky hand-timing flag - submitted independently for C05, C11 and C18 -, `lru_cache` merging `(1, 10)` with `(1, 10.0)`,
+  a relay-leg memo keyed by the bare number, field limits in one dict shared by the genders, junior lists extended in place, an
+  incrementally cached `trials`) and `Decimal // Decimal(float)`, which the decimal shim did not model. All nine are reported now
+  (§10); what it took is §2.10 (iii) and the per-property paragraphs of §3.
 * `vp check` #1: evidence committed from a partial `--only` run, and
   `distinct_nontrivial` defined so that it could be 0 → evidence is committed
   from full quick runs only; the metric counts non-syntactic obligations plus
